@@ -44,12 +44,17 @@ sigmoid = lambda x: 1./(1. + np.exp(-x))
 
 interp = """
 def interp(x_new, x, y):
+    # linear interpolation of the samples y on the grid x, clamped at both ends (same meaning as numpy.interp)
+    if x_new <= x[0]:
+        return y[0]
+    if x_new >= x[-1]:
+        return y[-1]
     idx = argmin(abs(x-x_new))
-    if abs(x[idx]) > abs(x_new):
+    if x[idx] > x_new:
         i1, i2 = idx-1, idx
     else:
         i1, i2 = idx, idx+1
-    return (y[i1] + y[i1])*0.5
+    return y[i1] + (y[i2] - y[i1]) * (x_new - x[i1]) / (x[i2] - x[i1])
 """
 
 # Weighted sum: einsum-based, identical algebra to base_funcs.wsum but using
